@@ -58,6 +58,7 @@ type tcase struct {
 	Part     int      // EC part index held locally (ec-part; mixed: -1 = the object is not an EC part)
 	ECs      [][2]int // mixed: (data, parity) per EC rule
 	PartRule int      // mixed: EC rule of the locally held part
+	CancelAt int      // 0 = never; k >= 1: the policer's context is cancelled as soon as k-1 remote HEADs have returned
 }
 
 func (c tcase) String() string {
@@ -76,7 +77,11 @@ func (c tcase) String() string {
 	} else {
 		s += fmt.Sprintf(" EC %d/%d part=%d", c.ECData, c.ECParity, c.Part)
 	}
-	return s + fmt.Sprintf(" type=%v shards=%d inNetmap=%v answers[%s]", types[c.Type], c.Shards, c.InNetmap, strings.Join(a, " "))
+	s += fmt.Sprintf(" type=%v shards=%d inNetmap=%v answers[%s]", types[c.Type], c.Shards, c.InNetmap, strings.Join(a, " "))
+	if c.CancelAt > 0 {
+		s += fmt.Sprintf(" policer context cancelled when HEAD #%d returns (0 = before the pass)", c.CancelAt-1)
+	}
+	return s
 }
 
 type outcome struct {
@@ -85,6 +90,7 @@ type outcome struct {
 	trace    []byte // what the policer did (for distinct counting)
 	contact  bool
 	deleted  bool
+	heads    int
 }
 
 func has(xs []int, v int) bool {
@@ -98,6 +104,7 @@ func has(xs []int, v int) bool {
 
 func run(w *polworld.World, c tcase) outcome {
 	w.Local = 0
+	w.CancelAt = c.CancelAt
 	w.InNetmap = c.InNetmap
 	w.Placement = polworld.Placement{}
 	for _, l := range c.Lists {
@@ -161,6 +168,7 @@ func run(w *polworld.World, c tcase) outcome {
 // returned / a replica was actually acknowledged), not from the policer's bookkeeping.
 func judge(w *polworld.World, c tcase) (o outcome) {
 	o.deleted = len(w.Deletes) > 0
+	o.heads = len(w.HeadCalls)
 	o.contact = len(w.HeadCalls)+len(w.ReplCalls) > 0
 	for _, l := range [][]int{w.HeadCalls, w.HeadOK, w.ReplCalls, w.ReplOK} {
 		for _, n := range l {
@@ -186,6 +194,9 @@ func judge(w *polworld.World, c tcase) (o outcome) {
 		o.class = "held"
 	}
 	fail := func(fp, f string, a ...any) outcome {
+		if c.CancelAt > 0 && !strings.HasPrefix(fp, "harness:") {
+			fp += ";policer-context-cancelled-mid-pass"
+		}
 		o.fp, o.what = fp, c.String()+": "+fmt.Sprintf(f, a...)+fmt.Sprintf(" [policer: HEAD asked %v ok %v; replicated to %v ok %v; deletes %v]", w.HeadCalls, w.HeadOK, w.ReplCalls, w.ReplOK, w.Deletes)
 		return o
 	}
@@ -582,6 +593,10 @@ func main() {
 
 	// simplest first: if the time budget ever cuts the run, only the largest placements are lost
 	sort.SliceStable(jobs, func(a, b int) bool { return jobs[a].k < jobs[b].k })
+	cancelK := 2 // the cancellation dimension is applied to placements with at most this many remote nodes
+	if r.Thorough() {
+		cancelK = 3
+	}
 	var mu sync.Mutex
 	traces := map[uint64]struct{}{}
 	classes := map[string]int64{}
@@ -638,6 +653,25 @@ func main() {
 				mu.Unlock()
 			} else if o.deleted && c.Kind == "rep" && len(c.Lists) == 2 && j.k >= 3 && r.WantSample() {
 				r.Sample(map[string]any{"case": c.String(), "outcome": o.class})
+			}
+			// cancellation dimension (small placements): stop the policer as the k-th HEAD returns, every k
+			if c.CancelAt == 0 && j.k <= cancelK && j.k > 0 {
+				for k := 1; k <= o.heads+1; k++ {
+					cc := c
+					cc.CancelAt = k
+					oc := run(w, cc)
+					r.Eval(1)
+					lclasses["cancelled:"+oc.class]++
+					if oc.fp != "" {
+						r.Violation(oc.fp, oc.what, cc)
+						mu.Lock()
+						if violClasses[oc.fp] == 0 {
+							violFirst[oc.fp] = oc.what
+						}
+						violClasses[oc.fp]++
+						mu.Unlock()
+					}
+				}
 			}
 		}
 		var tys, shs []int
@@ -718,7 +752,7 @@ func main() {
 	r.Set("cases_with_local_copy_dropped", deletes.Load())
 	r.Set("cases_contacting_remote_nodes", contacted.Load())
 	r.Set("placement_shapes", map[string]int{"rep_one_rule": oneRuleJobs, "rep_two_rules": twoRuleJobs, "ec": ecJobs, "mixed_rep+ec_and_multi_ec": mixedJobs})
-	r.Rule(fmt.Sprintf("placements up to renaming of remote nodes: ONE REP rule = every list of 1..5 nodes with the local node at every position or absent x REP 1..3 (full product); TWO REP rules = every ordered pair of %s, lists sharing nodes in every way, REP 1..3 each; EC-only container with rule 2/1, 1/1 or 1/2 over 2..5 nodes: every part index, and TOMBSTONE/LOCK/LINK objects; MIXED policies (REP lists + EC lists, list lengths on both sides of each other, lists overlapping in every way): %s, object = REGULAR/TOMBSTONE/LOCK/LINK or any part of any EC rule; x every remote node answering one of {has, 404+replica accepted, 404+replica refused, flagged maintenance, NODE_UNDER_MAINTENANCE status, error} x type REGULAR/TOMBSTONE/LOCK/LINK x 1-2 local shards (2 only for two-rule and ec-plain cases) x in/out of the network map when no list has the local node. distinct non-trivial = distinct (placement shape, type, policer trace [nodes HEADed, headers read, replicas sent/acked, deletes]) with at least one remote node contacted", bounds2txt, mixTxt))
+	r.Rule(fmt.Sprintf("placements up to renaming of remote nodes: ONE REP rule = every list of 1..5 nodes with the local node at every position or absent x REP 1..3 (full product); TWO REP rules = every ordered pair of %s, lists sharing nodes in every way, REP 1..3 each; EC-only container with rule 2/1, 1/1 or 1/2 over 2..5 nodes: every part index, and TOMBSTONE/LOCK/LINK objects; MIXED policies (REP lists + EC lists, list lengths on both sides of each other, lists overlapping in every way): %s, object = REGULAR/TOMBSTONE/LOCK/LINK or any part of any EC rule; x every remote node answering one of {has, 404+replica accepted, 404+replica refused, flagged maintenance, NODE_UNDER_MAINTENANCE status, error} x type REGULAR/TOMBSTONE/LOCK/LINK x 1-2 local shards (2 only for two-rule and ec-plain cases) x in/out of the network map when no list has the local node. distinct non-trivial = distinct (placement shape, type, policer trace [nodes HEADed, headers read, replicas sent/acked, deletes]) with at least one remote node contacted. Cancellation dimension: every case over at most %d remote nodes is re-run with the policer's context cancelled as the k-th remote HEAD returns, for every k = 0..number of HEADs of the case (remote calls made afterwards fail with the context error); same oracle", bounds2txt, mixTxt, cancelK))
 	r.Exhaustive(!expired.Load())
 	r.Assume("every node answers the same way each time it is asked within one policer pass (per-node deterministic answers)",
 		"GetNodesForObject succeeds (missing-container clean-up is outside the property); objects that are invalid for the policy (EC attributes without EC rule, REGULAR non-part object in an EC-only container: removed as garbage by design) are not enumerated; mixed REP+EC policies ARE enumerated although the Inner Ring refuses to register them today (the policer handles them)",
